@@ -39,9 +39,9 @@ CHECKS["C02"] = {
     "level": "exploration",
     "jobs": [
         J("cycles", "c02", "TestCycles", 2500, 60000, 10),
-        J("exh2", "c02", "TestExhaustive2", None, None),
+        J("exh2", "c02", "TestExhaustive2", None, None, replay_json=True),
         J("exh3", "c02", "TestExhaustive3", None, None, 4, replay_json=True),
-        J("exh4", "c02", "TestExhaustive4", None, None, 16, tiers=["thorough"]),
+        J("exh4", "c02", "TestExhaustive4", None, None, 16, tiers=["thorough"], replay_json=True),
         J("scale", "c02", "TestScale", 5, 60, 4),
     ],
     "assumptions": [
